@@ -89,7 +89,13 @@ class VfsRequest(request.SmartServerRequest):
             A string path suitable for use on the server side.
         """
         x = request.SmartServerRequest.translate_client_path(self, relpath)
-        return str(urlutils.unescape(x))
+        result = str(urlutils.unescape(x))
+        # The backing transport unescapes once more when it maps the relpath
+        # to a real location, so an encoded separator or dot segment (%2F,
+        # %2E) only becomes visible below the chroot.  Refuse any path whose
+        # fully decoded form climbs out of the root (joinpath raises).
+        urlutils.joinpath("/", urlutils.unescape(result))
+        return result
 
 
 class HasRequest(VfsRequest):
